@@ -93,7 +93,7 @@ type RunOpts struct {
 // BaseEnv is the pinned environment for convergen runs inside scratch modules: GOFLAGS is empty so
 // that the go command never rewrites go.mod/go.sum of the scratch module on the harness's behalf.
 func BaseEnv() []string {
-	keep := []string{"PATH", "HOME", "GOPATH", "GOCACHE", "GOMODCACHE", "GOROOT", "TMPDIR"}
+	keep := []string{"PATH", "HOME", "GOPATH", "GOCACHE", "GOMODCACHE", "GOROOT", "TMPDIR", "GOCOVERDIR"}
 	var env []string
 	for _, k := range keep {
 		if v, ok := os.LookupEnv(k); ok {
